@@ -54,6 +54,9 @@ CHECKS = {
  "C18": ("fault_enumeration", "TLA+ spec FileSys.tla (file contents under open / write / rename with a kill possible in every state and inside every write): TLC shows tmp+rename keeps FileCompleteOrAbsent and the direct protocol violates it (MC_FileSys); the real system-call log of the built-in callback (LD_PRELOAD interposer) is validated against the spec (Trace_C18) and drives the enumeration of kill points: every call x before/after x byte prefixes, each followed by classification of the file on disk against reference texts and a resumed run",
          "Crash points are enumerated from the observed protocol, not sampled; each killed execution is one trace TLC validates: the spec predicts what must be on disk and requires the resumed run to end byte-identically to the uninterrupted one.",
          "TLC; LD_PRELOAD interposer (process kill via _exit; power loss / fsync out of scope; close() inside libc is not observed); reference texts from an uninterrupted run", "5/C18"),
+ "C04": ("model_checking", "TLA+ spec Mpi.tla (ranks with program counters, two collectives per iteration with arrival sets, split from Split.tla): TLC explores all interleavings for P <= 3 and plans incl. N = 0, N < P, remainders (invariants Disjoint, Covers, SamePosition, ReducedIsSerial; deadlock check on; the 'skip second collective' alternative deadlocks); trace validation (Trace_C04) of mpi_plain / mpi_vegas / mpi_multi_channel under a thread-based MPI shim for world sizes 1..33 against the serial run: stream position of every evaluated point, collective signatures, counters, stored generator, sums, stop decisions, returned checkpoints",
+         "Which rank evaluates which stream position is decided by Split.tla inside the per-rank trace machines; equality with the serial run is exact where the inputs are exact (integer integrand values, dyadic weights) and 'up to reassociation' (1 unit of 2^-6) otherwise.",
+         "TLC; MPI shim (seeded arrival and reduction orders); real Open MPI is not part of the quick tier", "5/C04"),
 }
 
 NOT_YET = {}
